@@ -2,7 +2,9 @@
    Only statements closed by `exact`, each followed by Print Assumptions, plus non-vacuity Examples.
    Spec: spec/SpecTextStyle.v (flags per visible character, balanced, flat_balanced, well_nested).
    Writer markup: model/TextStyle.v = the writer models of model/TextWrite.v instrumented with the markup events
-   they write (erasure theorems below).  Reader models: model/TextRead.v.  Round trips are judged by execution. *)
+   they write (erasure theorems below).  Reader models: model/TextRead.v.  Round trips on the models: the *_roundtrip_flags theorems below; cross-format chains,
+   reader -> WebVTT, layout groups and the real libraries are judged by execution (harness/props/C11.py).
+   `balanced` counts depth only (an end node's dictionary is not compared with its start node's). *)
 From Coq Require Import List ZArith Bool.
 From PV Require Import lib.Sx lib.Str model.TextNodes model.TextWrite model.TextRead model.TextStyle.
 From PV Require Import spec.SpecTextXml spec.SpecTextStyle proofs.TextStyleFacts.
@@ -19,6 +21,7 @@ Theorem C11_sami_reader_balanced : forall fixed t, balanced (flat_map (sami_node
 Proof. exact sami_reader_p_balanced. Qed.
 Print Assumptions C11_sami_reader_balanced.
 
+(* TRIVIAL: the WebVTT reader model never produces a style node (faithful: the reader strips tags) *)
 Theorem C11_vtt_reader_balanced : forall fixed lines, balanced (vtt_cue_nodes fixed lines) = true.
 Proof. exact vtt_reader_nodes_balanced. Qed.
 Print Assumptions C11_vtt_reader_balanced.
